@@ -48,7 +48,7 @@ impl Prop for C08 {
         true
     }
     fn rule(&self) -> String {
-        "cases = one prepared statement declaring 0-600 parameters (counts biased to 0, 1, 7, 8, 9, 15-17, 63-65, 255-257, 600) executed 1-3 times with the new-params-bound flag set (later executions either bind fresh types or keep the type codes and flip some signedness flags); per parameter a bound type from every code the protocol defines a binary encoding for (27 codes) x unsigned flag; integer bit patterns over full widths, all float bit patterns incl. infinities, byte strings across the length-encoding classes, every legal length form of DATE (0/4), DATETIME/TIMESTAMP (0/4/7/11) and TIME (0/8/12, incl. negative), MYSQL_TYPE_NULL, arbitrary NULL-bitmap patterns. One case in five has the shim answer a further PREPARE with the same id and parameter count before some executions (after a COM_STMT_CLOSE or with the id still open, and possibly after long data that the client streamed but never executed): the inline values bound afterwards must arrive all the same. One case in five streams one parameter of an execution as long data (1-3 chunks, possibly all empty), which must not disturb the inline values of the others. The statement id is the shim's choice (1 mostly; else random, 0, 2^31, 0xFFFFFFFE, 0xFFFFFFFF), and one case in four has the shim prepare 1-3 further statements under other ids and parameter counts after it, which are never executed. Oracle: the shim's list has the declared length and per entry the bound type code, the exact ValueInner, and - where the Rust target type can represent the value (not the zero date, not negative TIME, not NaN) - the conversion result equals the encoded value. Non-trivial = >= 9 parameters (second bitmap byte) or an unsigned / narrow / temporal type.".into()
+        "cases = one prepared statement declaring 0-600 parameters (counts biased to 0, 1, 7, 8, 9, 15-17, 63-65, 255-257, 600) executed 1-3 times with the new-params-bound flag set (later executions either bind fresh types or keep the type codes and flip some signedness flags); per parameter a bound type from every code the protocol defines a binary encoding for (27 codes) x unsigned flag; integer bit patterns over full widths, all float bit patterns incl. infinities, byte strings across the length-encoding classes, every legal length form of DATE (0/4), DATETIME/TIMESTAMP (0/4/7/11) and TIME (0/8/12, incl. negative), MYSQL_TYPE_NULL, arbitrary NULL-bitmap patterns. One case in five has the shim answer a further PREPARE with the same id and parameter count before some executions (after a COM_STMT_CLOSE or with the id still open, and possibly after long data that the client streamed but never executed): the inline values bound afterwards must arrive all the same. One case in five streams one parameter of an execution as long data (1-3 chunks of 0-6 bytes, possibly all empty, one chunk in six of 300 bytes - 70 KB), which must not disturb the inline values of the others. The statement id is the shim's choice (1 mostly; else random, 0, 2^31, 0xFFFFFFFE, 0xFFFFFFFF), and one case in four has the shim prepare 1-3 further statements under other ids and parameter counts after it, which are never executed. Oracle: the shim's list has the declared length and per entry the bound type code, the exact ValueInner, and - where the Rust target type can represent the value (not the zero date, not negative TIME, not NaN) - the conversion result equals the encoded value. Non-trivial = >= 9 parameters (second bitmap byte) or an unsigned / narrow / temporal type.".into()
     }
     fn assumptions(&self) -> Vec<String> {
         vec!["the recording shim iterates all parameters, as every caller in the repository does".into()]
@@ -110,7 +110,17 @@ impl Prop for C08 {
             (0..nexec)
                 .map(|_| {
                     if g.coin() {
-                        let chunks = (0..g.usize_in(1, 3)).map(|_| if g.chance(1, 3) { vec![] } else { let k = g.usize_in(0, 6); g.bytes(k) }).collect();
+                        let chunks = (0..g.usize_in(1, 3)).map(|_| if g.chance(1, 3) {
+                            vec![]
+                        } else if g.chance(1, 4) {
+                            // chunks large enough that a buffer kept for them is worth keeping
+                            // (the next execution binds the same parameter inline)
+                            let len = *g.pick(&[300usize, 4_095, 4_096, 4_097, 5_000, 9_000, 70_000]) + g.usize_in(0, 3);
+                            crate::gen::pattern(g.raw(), len)
+                        } else {
+                            let k = g.usize_in(0, 6);
+                            g.bytes(k)
+                        }).collect();
                         Some((g.below(n as u64) as u16, chunks))
                     } else {
                         None
@@ -194,6 +204,9 @@ impl Prop for C08 {
                 let p = *p as usize;
                 if p < e.len() && !matches!(e[p].value, PVal::Null) {
                     ex.class("one-parameter-streamed-as-long-data");
+                    if chunks.iter().any(|c| c.len() > 4096) && k + 1 < case.execs.len() {
+                        ex.class("parameter-streamed-in-chunks->4KiB-then-executed-again");
+                    }
                     if chunks.iter().all(|c| c.is_empty()) {
                         ex.class("parameter-streamed-as-empty-long-data");
                         ex.nontrivial = true;
